@@ -1,6 +1,8 @@
 package main
 
 import (
+	"go/token"
+	"go/types"
 	"fmt"
 	"sort"
 	"strings"
@@ -20,9 +22,9 @@ func (c *Ctx) ttCondExprHandler() {
 	}}
 	c.runTable(ttTable{
 		rule: "R-TT", fn: "condition.defaultAssertionExpressionHandler",
-		atoms: []ttAtom{isStack, c.flagAtom("nnest", "nnest")},
+		atoms: []ttAtom{isStack, c.nativeStackAtom(1), c.flagAtom("nnest", "nnest")},
 		expect: func(v map[string]bool) string {
-			if v["isStack(x)"] && v["nnest"] {
+			if (v["isStack(x)"] || v["native(x)"]) && v["nnest"] {
 				return "nil"
 			}
 			return "x"
@@ -83,6 +85,22 @@ func (c *Ctx) ttCondExprHandler() {
 		},
 		outcome: c.boolOutcome(1),
 	})
+}
+
+// nativeStackAtom: the value in parameter k has the native type Stack
+// (initialised or not; a zero Stack{} is still a Stack).
+func (c *Ctx) nativeStackAtom(k int) ttAtom {
+	return ttAtom{"native(x)", func(fa *FnAnalysis, st *State) (bool, bool) {
+		var typ types.Type
+		if obj := c.p.Types.Scope().Lookup("Stack"); obj != nil {
+			typ = obj.Type()
+		}
+		if typ == nil {
+			return false, false
+		}
+		t := c.eng.tt.mk(Term{K: "TAOK", S: typeStr(typ), Typ: typ, A: c.param(fa, k)})
+		return fa.knownTerm(st, aTR, t)
+	}}
 }
 
 // rulePushLoops: in the two append workers every header store (the append)
@@ -362,5 +380,142 @@ func (c *Ctx) ruleOptionWritesOnlyOpt() {
 		} else {
 			c.rep.bad("R-OPTW", m.String(), "write set", c.p.pos(m.Fn.Pos()), "an option switch also writes "+strings.Join(extra, ", "))
 		}
+	}
+}
+
+// ---------------------------------------------------------------- R-SCAN
+//
+// IsNesting is true exactly when at least one slot is a Stack or alias: the
+// scan visits slots 1..len-1 in order; the verdict on slot i is "native Stack
+// or the converter's ok"; the loop continues only while the flag is false (so
+// a later non-stack can never overwrite an earlier true) and the flag at the
+// moment the loop is left is what the function returns.
+func (c *Ctx) ruleScanNesting() {
+	rep := c.rep
+	fn := c.anchor("R-SCAN", "stack.isNesting")
+	if fn == nil {
+		return
+	}
+	fa := c.eng.analyze(fn, nil)
+	pos := c.p.pos(fn.Pos())
+	var problems []string
+	if len(fa.loopOf) != 1 {
+		rep.bad("R-SCAN", relName(fn), "scan", pos, "expected exactly one loop")
+		return
+	}
+	var hdr *ssa.BasicBlock
+	for h := range fa.loopOf {
+		hdr = h
+	}
+	blocks := fa.loopOf[hdr]
+	var flag, counter *ssa.Phi
+	for _, in := range hdr.Instrs {
+		phi, ok := in.(*ssa.Phi)
+		if !ok {
+			break
+		}
+		if b, ok := phi.Type().Underlying().(*types.Basic); ok {
+			switch b.Kind() {
+			case types.Bool:
+				flag = phi
+			case types.Int:
+				counter = phi
+			}
+		}
+	}
+	if flag == nil || counter == nil {
+		rep.bad("R-SCAN", relName(fn), "scan", pos, "flag or counter not found in the loop header")
+		return
+	}
+	init, step, okS := c.phiInitStep(counter, hdr)
+	if k, isC := constIntOf(init); !okS || !isC || k != 1 || step != 1 {
+		problems = append(problems, "the scan does not visit slots 1, 2, 3, ...")
+	}
+	// bound: counter < len(r)
+	if iff, ok := hdr.Instrs[len(hdr.Instrs)-1].(*ssa.If); ok {
+		okB := false
+		if bo, ok := iff.Cond.(*ssa.BinOp); ok && bo.Op == token.LSS && bo.X == ssa.Value(counter) {
+			for _, s := range fa.statesBefore(iff) {
+				t := fa.term(s, bo.Y)
+				okB = t.K == "LEN" && t.A != nil && t.A.K == "P" && t.A.N == 0
+				if !okB {
+					break
+				}
+			}
+		}
+		if !okB {
+			problems = append(problems, "the scan is not bounded by the header's length")
+		}
+	}
+	// every back edge: the flag is known false (the loop goes on only while nothing was found)
+	for bi, succs := range fa.edgeOut {
+		if !blocks[bi] {
+			continue
+		}
+		for k, sb := range bi.Succs {
+			if sb != hdr || k >= len(succs) {
+				continue
+			}
+			pi := -1
+			for i, p := range hdr.Preds {
+				if p == bi {
+					pi = i
+				}
+			}
+			for _, s := range succs[k] {
+				if v, known := c.knownBool(fa, s, flag.Edges[pi]); !known || v {
+					problems = append(problems, "the scan can continue after a Stack was found: a later element would overwrite the verdict")
+				}
+			}
+		}
+	}
+	// the per-slot verdict: native Stack, or the converter's ok on that very slot
+	nVerdict := 0
+	for b := range blocks {
+		for _, in := range b.Instrs {
+			call, ok := in.(*ssa.Call)
+			if !ok || c.calleeName(&call.Call) != "stackTypeAliasConverter" {
+				continue
+			}
+			nVerdict++
+			for _, s := range fa.statesBefore(call) {
+				at := fa.term(s, call.Call.Args[0])
+				okSlot := at.K == "L" && at.A != nil && at.A.K == "IA" && at.A.A != nil && at.A.A.K == "P" && at.A.A.N == 0 && at.A.B == fa.term(s, counter)
+				if !okSlot {
+					problems = append(problems, "the converter is not applied to the slot at the loop counter")
+				}
+			}
+		}
+	}
+	if nVerdict != 1 {
+		problems = append(problems, fmt.Sprintf("%d converter calls in the scan, expected one", nVerdict))
+	}
+	// returns: true only with a found verdict, false only after the whole scan
+	for _, ret := range c.returnsOf(fn) {
+		for _, s := range fa.statesBefore(ret) {
+			v, known := c.knownBool(fa, s, ret.Results[0])
+			if !known {
+				// the converter's own verdict on the last slot examined, returned as is
+				t := fa.term(s, ret.Results[0])
+				if !(t.K == "X" && t.N == 1 && t.A != nil && t.A.K == "APP" && t.A.S == "stackTypeAliasConverter") {
+					problems = append(problems, "the value returned is neither a constant nor the converter's verdict: "+t.key)
+				}
+				continue
+			}
+			if !v {
+				// must have left through the exhausted bound
+				if iff, ok := hdr.Instrs[len(hdr.Instrs)-1].(*ssa.If); ok {
+					if bv, bk := fa.knownTerm(s, aTR, fa.term(s, iff.Cond)); !bk || bv {
+						problems = append(problems, "false is returned although the scan may not have reached the end")
+					}
+				}
+			}
+		}
+	}
+	if len(problems) == 0 {
+		rep.ok("R-SCAN", relName(fn), "scan", pos, "slots 1..len-1 in order; verdict per slot = native Stack or converter ok; the loop goes on only while nothing was found; false only after the last slot")
+	} else {
+		sort.Strings(problems)
+		rep.bad("R-SCAN", relName(fn), "scan", pos, strings.Join(uniq(problems), "; "))
 	}
 }
